@@ -193,12 +193,33 @@ def concOutcomes (kinds : String) : String :=
     let txs := kinds.toList.filter (· != 'R')
     if txs.all (fun c => txProgFlat t (kindEntry c)) then "ok" else "ok|hang"
 
+/-- `stage api:<Method>`: a transaction is open, a restore has reached reloadLock.Lock(), the transaction body
+    calls the method.  From the regenerated in-transaction path of the method: it returns (`ok`) when that path
+    takes no read lock, it may never return (`hang`: recursive RLock behind the waiting writer) when it does. -/
+def apiOutcomes (name : String) : String :=
+  match LockTable.get Generated.dbInTxPrograms name with
+  | none => "unmodelled"
+  | some evs => if evs.contains .rlock || evs.contains .wlock then "ok|hang" else "ok"
+
+/-- the property demands a return of every method that opens no transaction of its own on its in-transaction path
+    (`mustReturnInTx`); the transaction entry points nest a transaction when called from a transaction body and take
+    the read lock recursively by design (so does `Stats`): there a hang is what the model predicts and is accepted -/
+def apiSpec (name impl : String) : String :=
+  if impl == "ok" then "ok"
+  else if (impl.splitOn ":").headD "" == "hang" && !mustReturnInTx Generated.dbInTxPrograms name
+          && apiOutcomes name == "ok|hang" then "ok"
+  else "fail:" ++ ((impl.splitOn ":").headD "?")
+
 def stageOutcomes (which : String) : String :=
   let t := Generated.dbLockPrograms
   if !(restoreModelled t && txProgsGuarded t) then "unmodelled"
+  else if which.startsWith "api:" then apiOutcomes (which.drop 4).toString
   else match which with
     | "snapintx" => if takesReadLock t "SnapshotInTx" then "ok|hang" else "ok"
     | "rootbucket" => if takesReadLock t "RootBucket" then "ok|hang" else "ok"
+    -- migrationManager.Migrate: Update{ RootBucket(tx); SnapshotInTx(tx, GetDefaultSnapshotPath()) }
+    | "migrate" =>
+      if ["RootBucket", "SnapshotInTx", "GetDefaultSnapshotPath"].all (fun n => apiOutcomes n == "ok") then "ok" else "ok|hang"
     | _ => "ok"
 
 /-- all interleavings of two requesters, `n` steps in total -/
@@ -243,6 +264,9 @@ def specStep (line : String) : String :=
           | some i => s!"fail@{i}:{toks.getD i "?"}"
       | _, _ => "unparsed"
     | "conc" :: _ => if impl == "ok" then "ok" else "fail:" ++ ((impl.splitOn ":").headD "?")
+    | ["stage", which] =>
+      if which.startsWith "api:" then apiSpec (which.drop 4).toString impl
+      else if impl == "ok" then "ok" else "fail:" ++ ((impl.splitOn ":").headD "?")
     | "stage" :: _ => if impl == "ok" then "ok" else "fail:" ++ ((impl.splitOn ":").headD "?")
     | "tlconc" :: _ => if impl == "ok" then "ok" else "fail:" ++ ((impl.splitOn ":").headD "?")
     | _ => "bad-case"
